@@ -28,6 +28,8 @@ CLAIMED = {
          "Clause-level structural decision: all words reduced (proved modulo A5), cones = branched orbits with their own degree, no empty relators, one relator per 2-orbit of every index pair incl. mirrors, facet sides carry inverse words. That the presentation defines the orbifold fundamental group is NOT decided.", "4/C09"),
  "C12": ("T9 construct-through (children = potential_children filtered by is_canonical; extract = compact()), T3 guards (contradiction edge cannot reach Some; deductions joined and re-queued; emission only when complete), T4 row bound min(max_rows, len+1)",
          "Clause-level structural decision: canonical filter, contradiction rejection, completeness on emission and the row bound hold for every presentation and bound. Pairwise inequivalence and completeness of the list are NOT decided.", "4/C12"),
+ "C13": ("T4 operand slots and T3 guards of the Reidemeister-Schreier construction (transversal along the spanning tree, generator wx*g*wy^-1 for unlabelled edges over all rows/letters, edge-word pairs, single-cut propagation, relators from every row), and of core/intersection tables (tuple of all rows; pair images in slot order; numbering by table length; compact on return)",
+         "PARTIAL, structural necessary conditions only; that the generators generate the full stabiliser, that the relators present it and the row counts of core/intersection tables are NOT decided.", "11.6"),
  "C14": ("T6(b) factor-through: relators are consumed only by relator_as_vector whose letter use is sign test + order-independent +=/-= at |g|-1; T9 sorted-on-return with no later mutation; T2 drop-ones / pad-zeros chain",
          "Proves invariance under rotation/conjugation/free reduction (result factors through exponent sums) and decides ascending output and the 1-dropping/zero-padding shape. The invariant-factor values (Smith normal form) are NOT decided.", "4/C14"),
  "C15": ("T3 guard-dominates-effect with data-chain correspondence (returned cover <- all v == 1 on that cover; Some(cover) <- abelian_invariants(stabilizer(0, relators, same table)) == [0,0,0]; candidates <- flattens_all), T4 point-group name/size tables vs index bound",
@@ -45,7 +47,6 @@ CLAIMED = {
 }
 
 NA = {
- "C13": "exactness of stabiliser/core/intersection constructions is algorithm correctness over values; the only shape facts in its anchors (compaction, base row 0, reduced words) are armed under C10/C11 and are not necessary conditions of C13's own statement (DESIGN 4/C13)",
  "C16": "topology preservation of a rewriting system; no clause is visible in the shape of the code; the one majority-inferred candidate (exclusive seed ranges) does not change behaviour and was not armed (DESIGN 4/C16)",
 }
 
